@@ -1163,7 +1163,10 @@ class OFConnection (object):
         io_worker.consume_receive_buf(message_length)
         continue
 
-      new_offset, msg_obj = self.unpackers[ofp_type](message, 0)
+      try:
+        new_offset, msg_obj = self.unpackers[ofp_type](message[:message_length], 0)
+      except Exception:
+        new_offset, msg_obj = -1, None
       if new_offset != message_length:
         info = (msg_obj, message_length, new_offset)
         r = self._error_handler(self.ERR_BAD_LENGTH, info)
